@@ -55,7 +55,7 @@ ASSUMPTIONS = [
     "cache key injective (C09), restore exact (C06), atomic per-target steps",
 ]
 
-FAMILIES_QUICK = [("edits", 2), ("wipe", 3), ("lostblob", 3), ("dirs", 2), ("alias", 2), ("aliaswipe", 3), ("nocache", 3), ("tamper", 1), ("disabled", 2), ("taint", 2), ("collector", 2), ("run", 3), ("fanout", 3), ("depchecks", 3)]
+FAMILIES_QUICK = [("edits", 2), ("wipe", 3), ("lostblob", 3), ("dirs", 2), ("alias", 2), ("aliaswipe", 2), ("nocache", 2), ("tamper", 1), ("disabled", 2), ("taint", 2), ("collector", 2), ("run", 3), ("fanout", 3), ("depchecks", 3)]
 FAMILIES_THOROUGH = [(f, n * 15) for f, n in FAMILIES_QUICK]
 
 
